@@ -118,6 +118,7 @@ def _inline_call(helper: ast.FunctionDef, call: ast.Call, targets, as_return, si
     bound = _bound_names(helper)
     suffix = "__" + helper.name.strip("_")
     rename = {n: n + suffix for n in bound if n not in params}
+    identity = set()
     # `T1, T2 = h(..)` with `return l1, l2` (distinct helper locals): the locals take the caller's names directly and the final copy
     # disappears -- provided the caller's names occur neither in the arguments nor as free names of the helper (no capture)
     direct = False
@@ -126,17 +127,30 @@ def _inline_call(helper: ast.FunctionDef, call: ast.Call, targets, as_return, si
         tg, rv = targets[0], rstmt.value
         tnames = [tg.id] if isinstance(tg, ast.Name) else ([e.id for e in tg.elts] if isinstance(tg, (ast.Tuple, ast.List)) and all(isinstance(e, ast.Name) for e in tg.elts) else None)
         rnames = [rv.id] if isinstance(rv, ast.Name) else ([e.id for e in rv.elts] if isinstance(rv, ast.Tuple) and all(isinstance(e, ast.Name) for e in rv.elts) else None)
+        identity = set()
         if tnames and rnames and len(tnames) == len(rnames) and len(set(rnames)) == len(rnames) and len(set(tnames)) == len(tnames) \
-                and all(r in bound and r not in params for r in rnames):
-            argnames = {x.id for a_ in actual.values() for x in ast.walk(a_) if isinstance(x, ast.Name)}
+                and all(r in bound for r in rnames):
+            # a returned name may be a parameter the helper rebinds (`U, S, V = mask.apply_mask(U, S, V)`): it takes the caller's name too;
+            # when the caller passes that very name for it (U for U) the binding of the parameter is the identity and disappears
+            for r, t in zip(rnames, tnames):
+                if r in params and isinstance(actual.get(r), ast.Name) and actual[r].id == t:
+                    identity.add(r)
+            argnames = {x.id for p_, a_ in actual.items() if p_ not in identity for x in ast.walk(a_) if isinstance(x, ast.Name)}
             free = {x.id for x in ast.walk(helper) if isinstance(x, ast.Name)} - set(bound) - set(params)
-            if not (set(tnames) & (argnames | free)) and not (set(tnames) & (set(bound) - set(rnames))):
+            if not (set(tnames) & (argnames | free)) and not (set(tnames) & ((set(bound) | set(params)) - set(rnames))):
                 for r, t in zip(rnames, tnames):
                     rename[r] = t
                 direct = True
+            else:
+                identity = set()
     pre = []
     subst = {}
     for p in params:
+        if direct and p in identity:
+            continue                      # parameter and caller's name coincide: nothing to bind
+        if direct and p in rename and rename[p] != p + suffix and p in bound:
+            pre.append(ast.Assign(targets=[ast.Name(id=rename[p], ctx=ast.Store())], value=copy.deepcopy(actual[p])))
+            continue
         if p not in bound and _simple_arg(actual[p]):
             subst[p] = actual[p]
         else:
@@ -427,6 +441,62 @@ class _Unroller(ast.NodeTransformer):
         return node
 
 
+class _CallableTemps(ast.NodeTransformer):
+    """N1c: `g = methodcaller('m', *a)` ... `g(x)`  ->  `x.m(*a)`;   `g = partial(f, *a, **k)` ... `g(*b)`  ->  `f(*a, *b, **k)`
+    for locals bound exactly once (the temporaries stay, unused).  Pure rewriting of call syntax: operator.methodcaller and
+    functools.partial are defined to behave exactly like the rewritten calls."""
+
+    def __init__(self):
+        self.count = 0
+
+    def visit_Call(self, c):
+        self.generic_visit(c)
+        # getattr(x, 'name')  ->  x.name   (two-argument form with a literal identifier)
+        if isinstance(c.func, ast.Name) and c.func.id == "getattr" and len(c.args) == 2 and not c.keywords and isinstance(c.args[1], ast.Constant) \
+                and isinstance(c.args[1].value, str) and c.args[1].value.isidentifier():
+            self.count += 1
+            return ast.copy_location(ast.Attribute(value=c.args[0], attr=c.args[1].value, ctx=ast.Load()), c)
+        return c
+
+    def visit_FunctionDef(self, node):
+        self.generic_visit(node)
+        binds = {}
+        for n in ast.walk(node):
+            if isinstance(n, ast.Name) and isinstance(n.ctx, (ast.Store, ast.Del)):
+                binds[n.id] = binds.get(n.id, 0) + 1
+        temps = {}
+        for n in ast.walk(node):
+            if isinstance(n, ast.Assign) and len(n.targets) == 1 and isinstance(n.targets[0], ast.Name) and binds.get(n.targets[0].id) == 1 \
+                    and isinstance(n.value, ast.Call):
+                fn_ = ast.unparse(n.value.func).split(".")[-1]
+                if fn_ == "methodcaller" and n.value.args and isinstance(n.value.args[0], ast.Constant) and isinstance(n.value.args[0].value, str) \
+                        and all(isinstance(a_, (ast.Name, ast.Constant)) for a_ in n.value.args[1:]) and not n.value.keywords:
+                    temps[n.targets[0].id] = ("m", n.value)
+                elif fn_ == "partial" and n.value.args and all(isinstance(a_, (ast.Name, ast.Constant, ast.Attribute)) for a_ in n.value.args) \
+                        and all(k.arg is not None and isinstance(k.value, (ast.Name, ast.Constant, ast.Attribute)) for k in n.value.keywords):
+                    temps[n.targets[0].id] = ("p", n.value)
+        if not temps:
+            return node
+        outer = self
+
+        class R(ast.NodeTransformer):
+            def visit_Call(self, c):
+                self.generic_visit(c)
+                if isinstance(c.func, ast.Name) and c.func.id in temps:
+                    kind, v = temps[c.func.id]
+                    if kind == "m" and len(c.args) == 1 and not c.keywords and not isinstance(c.args[0], ast.Starred):
+                        outer.count += 1
+                        return ast.copy_location(ast.Call(func=ast.Attribute(value=c.args[0], attr=v.args[0].value, ctx=ast.Load()),
+                                                          args=[copy.deepcopy(a_) for a_ in v.args[1:]], keywords=[]), c)
+                    if kind == "p":
+                        outer.count += 1
+                        return ast.copy_location(ast.Call(func=copy.deepcopy(v.args[0]), args=[copy.deepcopy(a_) for a_ in v.args[1:]] + list(c.args),
+                                                          keywords=[copy.deepcopy(k) for k in v.keywords] + list(c.keywords)), c)
+                return c
+        node.body = [R().visit(st) for st in node.body]
+        return node
+
+
 def normalise_module(tree: ast.Module, exported=(), unroll=True):
     """inline unknown private helpers of this module into their callers (in place on a deep copy); returns (new tree, info)"""
     tree = copy.deepcopy(tree)
@@ -463,6 +533,9 @@ def normalise_module(tree: ast.Module, exported=(), unroll=True):
         ei.visit(tree)
         info["call_sites"] += ei.count
         info["helpers_inlined"] = sorted(set(info["helpers_inlined"]) | ei.used)
+    ct = _CallableTemps()
+    ct.visit(tree)
+    info["call_sites"] += ct.count
     # helpers whose every call was inlined are dead code on the normal form: dropped, so that no rule judges the helper out of context
     refs = {n.id for n in ast.walk(tree) if isinstance(n, ast.Name) and isinstance(n.ctx, ast.Load)} | \
            {n.attr for n in ast.walk(tree) if isinstance(n, ast.Attribute)}
